@@ -7,6 +7,7 @@ import (
 	"fmt"
 	"io"
 	"math/big"
+	"os"
 	"os/exec"
 	"strings"
 	"sync/atomic"
@@ -69,6 +70,11 @@ func New(kind string, timeoutMs int) (*Solver, error) {
 	}
 	s := &Solver{Kind: kind, cmd: cmd, in: in, out: bufio.NewReaderSize(out, 1<<16), timeout: timeoutMs}
 	s.declared = []map[string]bool{{}}
+	if p := os.Getenv("SYMGO_SMTLOG"); p != "" {
+		if f, err := os.Create(fmt.Sprintf("%s.%d", p, cmd.Process.Pid)); err == nil {
+			s.Log = f
+		}
+	}
 	s.preamble()
 	return s, nil
 }
